@@ -12,6 +12,33 @@ def run(ctx):
         facts=lambda c, reason: {"reason": reason[0], "mode": reason[1], "scenario": reason[0][6:] if reason[0].startswith("known:") else None},
         what=lambda c, reason: "%s as %s: %s (%s)" % (c["id"], reason[1], reason[0], {k: v for k, v in c["doc"].items() if v not in ("absent", "valid", "default", "present", "js", "none")}),
         mc_kw={"workers": 4, "timeout": 1200}, drive_timeout=6000)
+    # ---- stage 2: the text-dependent part of an accepted rule, enumerated from a model of its own.
+    # StringCase.tla transcribes the word splitting of `convert` (a byte-offset state machine); MC_StringCase checks that
+    # it never cuts inside a character, loses no letter and equals the documented splitting, and exports every string;
+    # the recorder pushes each through the real transformation: a panic is a C11 violation, any other difference is
+    # drift of the transcription.
+    sc = vlib.model_check(ctx, "mc/MC_StringCase.tla", "mc/MC_StringCase_thorough.cfg" if th else "mc/MC_StringCase_quick.cfg",
+                          workers=4, timeout=1800)
+    scvec = ctx.path("strcase-vectors.ndjson")
+    vlib.write_ndjson(scvec, sc.vec)
+    screc = ctx.path("strcase-records.ndjson")
+    scsumm = vlib.agv_ok(ctx, ["drive", "strcase", "--vectors", scvec, "--out", screc], timeout=1800)
+    ndrift = len(ctx.cov["drift"])
+    if th:
+        scn, scfails = vlib.validate_trace_sharded(ctx, "trace/Trace_StringCase.tla", "trace/Trace_StringCase.cfg", screc, shards=8)
+    else:
+        scn, scfails = vlib.validate_trace(ctx, "trace/Trace_StringCase.tla", "trace/Trace_StringCase.cfg", screc)
+    for f in scfails:
+        case = vlib.nth_line(screc, f["index"])
+        for reason in f["reasons"]:
+            vlib.report_failure(ctx, {"reason": reason, "mode": "convert"},
+                                {"record": {"id": case["id"], "text": case["text"], "caseChange": case["cc"]}, "reason": reason,
+                                 "seed": ctx.seed, "tier": ctx.tier},
+                                "convert snakeCase on %r: %s" % (case["text"], reason))
+    ctx.cov["convert_strings_from_model"] = len(sc.vec)
+    ctx.cov["convert_evaluations"] = scn
+    ctx.cov["convert_model_states"] = sc.distinct
+    ctx.cov["convert_drift_reports"] = len(ctx.cov["drift"]) - ndrift
     recs = vlib.read_ndjson(rec)
     nt = set()
     for x in recs:
@@ -21,7 +48,7 @@ def run(ctx):
             dev = tuple(sorted((k, v) for k, v in x["doc"].items() if v not in ("absent", "default", "present", "js", "none") and not (k == "pattern" and v == "valid")))
             if dev:
                 nt.add(dev)
-    ctx.cov["evaluations"] = summ.get("child_runs", n)
+    ctx.cov["evaluations"] = summ.get("child_runs", n) + scn
     ctx.cov["distinct_nontrivial"] = len(nt)
     ctx.cov["rule"] = ("case = one document of the generator model (field -> value class, at most 2 deviations from the default "
                        "document; all single deviations always, pairs by seeded stride in the quick tier) or a seeded byte mutation of "
